@@ -98,6 +98,25 @@ CLAIMED["C05"] = (
     "DESIGN.md §4 C05",
 )
 
+CLAIMED["C06"] = (
+    "is_equivalent modelled case by case (13 structural classes, the str() fallback with mypy's StrConv.str_repr for literals modelled "
+    "character by character, unmangle_name, get_common_expr_positions) and proved, for expressions of any size by mutual structural "
+    "recursion, to be exactly the kernel of a normal form (isEquiv_iff_norm; hence an equivalence relation, immune to zip truncation). "
+    "Between operands of a well-resolved program it coincides with syntactic identity (equiv_sound_partial / equiv_complete_partial / "
+    "isEquiv_iff_synEq); every single-field edit (attribute, operator, argument kind, keyword, arity, class, literal, resolved name) at "
+    "any depth breaks equivalence (mutant_differs over one-hole contexts). The unrestricted statement is refuted in both directions by "
+    "machine-checked witnesses (known findings). The model's one parameter (does the NameExpr case compare `name`) is read off /repo by "
+    "execution on every run. Tied to the code by ~2x10^4 (1.8x10^5 thorough) comparisons with the real function on real mypy nodes, and "
+    "FURB110/108/124/136/121/102/132/188 judged end to end against ast.dump equality (identical pairs, layouts, 16 kinds of single-edit mutants).",
+    COMMON_NOTE
+    + "Modelled, not verified: mypy's StrConv text of non-structural nodes (lambda, comprehensions, conditional, walrus, await, yield) "
+    "enters as an input; that mypy resolves equal names to equal fullnames is assumed (World); the serialisation of nodes in "
+    "harness/props/c06.py; the str()-head assumption and mypy's parallel-list invariants are checked per node each run; `a and b and c` "
+    "counts as `a and (b and c)` (one mypy tree); pairs differing only by an import alias of one object are counted, not judged.",
+    "Lean 4 proof (mutual structural induction, normal-form kernel characterisation, one-hole context congruence, refutation by decided witnesses) + in-process differential on real nodes + CLI oracle",
+    "DESIGN.md §4 C06",
+)
+
 CLAIMED["C04"] = (
     "Theorems for syntax trees of any depth and width: if every child edge that occurs is followed with multiplicity 1 the visit "
     "sequence equals the node list (walk_eq_nodes; also necessary: once_requires_one; a dropped field hides its subtree, a doubled "
